@@ -3,7 +3,7 @@
 # (govc check -repo <clone>; nothing touches /repo). Results are appended to /verif/seeded/RESULTS_par.tsv.
 nw=$1; shift
 export GOFLAGS=-mod=mod GOPROXY=off GOSUMDB=off GOTOOLCHAIN=local
-declare -A EXTRA=( [C02]="C12 C03" [C03]="C08 C17 C20" [C04]="C07 C08 C09" [C06]="C02" [C07]="C08 C09 C04" [C08]="C17 C07 C09 C10" [C09]="C20 C07 C08" [C10]="C07 C09 C03" [C11]="C08 C09 C10 C07 C20" [C12]="C04 C20 C02" [C13]="C14 C17" [C14]="C13 C15 C12" [C15]="C14 C16" [C16]="C19 C15" [C17]="C13 C08 C14" [C18]="C12 C07" [C19]="C16 C15" [C20]="C09 C03 C12" )
+declare -A EXTRA=( [C02]="C12 C03" [C03]="C08 C17 C20" [C04]="C07 C08 C09" [C06]="C02" [C07]="C08 C09 C04" [C08]="C17 C07 C09 C10" [C09]="C20 C07 C08" [C10]="C07 C09 C03" [C11]="C09 C08 C10 C07 C20" [C12]="C04 C20 C02" [C13]="C14 C17" [C14]="C13 C15 C12" [C15]="C14 C16" [C16]="C19 C15" [C17]="C13 C08 C14" [C18]="C12 C07" [C19]="C16 C15" [C20]="C09 C03 C12" )
 work() {
   w=$1; shift
   clone=/var/tmp/seedrepo-$w
@@ -12,7 +12,7 @@ work() {
   git -C $clone reset -q --hard origin/main
   # a private copy of /verif's inputs, so that evidence and replay files of these runs never land in /verif
   sv=/var/tmp/seedverif-$w
-  mkdir -p $sv && rsync -a --delete --exclude .git --exclude evidence --exclude replays --exclude bin --exclude .work --exclude seeded /verif/ $sv/ && mkdir -p $sv/evidence $sv/replays
+  mkdir -p $sv && rsync -a --delete --exclude .git --exclude evidence --exclude replays --exclude .work --exclude seeded /verif/ $sv/ && mkdir -p $sv/evidence $sv/replays $sv/bin && cp /verif/bin/govc $sv/bin/govc
   for s in "$@"; do
     prop=${s%-*}
     p=/verif/seeded/$s/patch.diff; [ -f /verif/seeded/$s/patch_ported.diff ] && p=/verif/seeded/$s/patch_ported.diff
@@ -21,7 +21,7 @@ work() {
     (cd $clone && git reset -q && go build ./... 2>&1 | head -2)
     det=""; und=0
     for q in $prop ${EXTRA[$prop]}; do
-      out=$(cd $sv && /verif/bin/govc check -repo $clone -verif $sv $q 2>&1)
+      out=$(cd $sv && $sv/bin/govc check -repo $clone -verif $sv $q 2>&1)
       d=$(echo "$out" | grep "^VIOLATION" | sed "s/^VIOLATION property=[A-Z0-9]* replay=[^ ]*\/replays\/\([^ ]*\)\.json.*/$q:\1/" | head -3 | tr '\n' ' ')
       det="$det$d"
       und=$((und + $(echo "$out" | grep -c "^UNDECIDED")))
